@@ -23,6 +23,13 @@ profile consumer applies (stated again, as the hypotheses of the comparison, in 
       field of the same message, each value a constant of that field's type (or a plain number).
   R5  array <=> the Array cell is not empty; "[n]" with a number declares a fixed length n.
   R6  the field type of a field is a base type name, "bool" (base type enum), or a type of the Types sheet.
+  R7  a row of a type whose Comment contains "deprecated" (any case) and whose Value another row of the same type also
+      carries is an ALIAS of that row, not a constant of its own (the generated String()/List()/FromString are functions
+      of the value; the property demands that constants round-trip through their string forms and are listed once).
+      This reader only MARKS such rows (`dep`); the rule itself is the Lean definition `TypeRow.drops` / `TypeRow.dedupe`
+      (lean/FitModel/ProfileSpec.lean), and FitProps/C17.lean pins what it drops on the current sheet: exactly
+      weather_report.forecast = 1 ("Deprecated use hourly_forecast"; hourly_forecast = 1 stays) — C17_dedupe_exact,
+      C17_dedupe_no_value_lost, C17_types_without_R7_false.
 
 Output: lean/FitModel/Generated/Xlsx.lean (messages) and XlsxTypes.lean (types), namespace Fit.Gen.Xlsx, and, optionally, the same data as JSON
 (used by the check only to print a readable replay).
